@@ -6,7 +6,7 @@ stdin  {"mgr":   [ {"ltk": hex, "mat": [skdm, ivm, skds, ivs], "ops": [op, ...]}
         "sweep": [ {"ltk", "mat", "mc", "sc", "d", "tol", "pdu": hex} ],
         "pair":  [ {"tx": {"ltk","mat","mc","sc"}, "rx": {...}, "d_tx", "d_rx", "tol", "pdu": hex} ],
         "link":  [ {"ltk","mat","tol","events": [[d, hex, delivered]]} ],
-        "capture": [ {"ltk","mat","keys":[hex],"events": [[d, plain pdu hex, captured]]} ]}
+        "capture": [ {"ltk","mat","keys":[hex],"events": [[d, plain pdu hex, captured(, first ciphertext byte to force)]]} ]}
   capture: the on-air PDUs are produced by an independent reference written from the Bluetooth Core
   specification (Vol 6 Part E 2: nonce = 39-bit packet counter LE, direction bit 1 for central->peripheral,
   IV; Cryptodome CCM called directly), then fed to LinkLayerDecryptor.
@@ -179,17 +179,25 @@ def do_capture(c):
     sk, iv = ref_session(bytes.fromhex(c["ltk"]), c["mat"])
     cnt = {1: 0, 2: 0}
     air = []
-    for d, hx, captured in c["events"]:
+    plain = []
+    for ev in c["events"]:
+        d, hx, captured = ev[0], ev[1], ev[2]
         pdu = bytes.fromhex(hx)
         if pdu[1] == 0 and (pdu[0] & 3) == 1:      # empty PDU: never encrypted, no counter
             a = pdu
         else:
+            if len(ev) > 3 and len(pdu) > 2:
+                # choose the first plaintext byte so that the first CIPHERTEXT byte is ev[3]
+                z = ref_encrypt(sk, iv, cnt[d], d == 1, pdu[:2] + bytes(len(pdu) - 2))
+                pdu = pdu[:2] + bytes([z[2] ^ ev[3]]) + pdu[3:]
             a = ref_encrypt(sk, iv, cnt[d], d == 1, pdu)
             cnt[d] += 1
         if captured:
             air.append(a.hex())
+            plain.append(pdu.hex())
     r = do_decryptor({"keys": c["keys"], "mats": [c["mat"]], "pdus": air})
     r["air"] = air
+    r["plain"] = plain
     return r
 
 
